@@ -1048,7 +1048,7 @@ def run(chk, replay=None):
              "clang AST and checked against the model by Lean",
         trusted=["Lean 4.33 kernel", "Vita/C20/Model.lean: hand-written model of small_vector.{h,tcc} at the granularity "
                  "of the std algorithms it calls (tied by the differential run, the skeleton obligations and, for "
-                 "resize, the denotation theorem)",
+                 "resize and copy assignment, the denotation theorems)",
                  "tools/translate_smallvec.py + cxx2lean.py (clang-14 JSON AST -> statement skeletons, used members)",
                  "std::vector<T> of libstdc++ as reference semantics", "the Tracked / Pod element types, the id<->value "
                  "encodings and the registry of harness/c20_smallvec.cc", "g++ 12.2 ASan/UBSan/LSan"])
